@@ -941,7 +941,7 @@ package genql
 // C04: the hash path stands in for `=`: a key is printed the way compare.Compare prints values it compares as text (%v),
 // so that values that compare equal (7 and uint32(7), 9 and "9") fall into one bucket
 //@ func ToCatalog
-//@   at-call Sprintf:reader assert the-key-is-printed-the-way-compare-prints-values[C04]: arg0 == "%v" && varargs == 1 && vararg0 == callresult(ExecReader, 0)
+//@   at-call Sprintf:reader assert the-key-is-printed-the-way-compare-prints-values[C04,C15]: arg0 == "%v" && varargs == 1 && vararg0 == callresult(ExecReader, 0)
 
 // C08/C01: a row or an inner result enters the result of exec only inside the row loop, one element at a time
 // (after the filter, or after the recursive run): nothing is copied over wholesale
@@ -1012,7 +1012,7 @@ package genql
 
 // C04: the text that enters the key is the printed value, with one text for the two zeros (-0 = 0 holds, so they are one key)
 //@ func ToCatalog
-//@   at-call WriteString:String(text) assert the-key-text-is-the-printed-value-with-one-text-for-both-zeros[C04]:
+//@   at-call WriteString:String(text) assert the-key-text-is-the-printed-value-with-one-text-for-both-zeros[C04,C15]:
 //@     | (typeis(callresult(ExecReader, 0), float64) && callresult(ExecReader, 0).(float64) <= 0 && callresult(ExecReader, 0).(float64) >= 0 ==> arg1 == "0") &&
 //@     | (!(typeis(callresult(ExecReader, 0), float64) && callresult(ExecReader, 0).(float64) <= 0 && callresult(ExecReader, 0).(float64) >= 0) ==> arg1 == callresult(Sprintf, 0, 1))
 
@@ -1155,3 +1155,7 @@ package genql
 // C06/C07: a branch of a UNION is prepared on the document and with the options of the UNION
 //@ func unionBranch
 //@   at-call Prepare assert a-branch-runs-on-the-document-and-with-the-options-of-the-union[C06,C07,C20]: arg0 == query.data && arg1 == statement && arg2 == query.options
+
+// C14: the list of immediate functions holds lower-case names (IsImmediateFunction lowers the name it looks up)
+//@ func RegisterImmediateFunction
+//@   at-call append:immediateFunctions assert the-name-is-listed-in-lower-case[C14]: called(ToLower) && appended == callresult(ToLower, 0)
